@@ -81,18 +81,18 @@ SameRegionIffChain(uni, s) ==
     \A comp \in RegionComponents(uni, s) :
         \E r \in s.regions : /\ r.cands = {a.c : a \in {a \in comp : a.t = "cand"}}
                              /\ r.subs = {a.s : a \in {a \in comp : a.t = "sub"}}
-(* the span covering exactly one component: exact connect-relation, unless the component needs half the ring *)
+(* the span covering exactly one component.  The areas of a component overlap in a chain, so the bases they occupy form
+   one stretch of the record (on a ring possibly all of it): the region occupies exactly those bases - also when that
+   stretch is longer than half a ring, where connecting arbitrary locations is allowed to give more (Ring!ConnectClause);
+   a region that reached further could take in areas no chain links to it *)
 RegionSpanFailed(uni, r) ==
     LET locs == {c.loc : c \in r.cands} \cup {uni.areas[x].extent : x \in r.subs}
         R == RU(uni)
-        big == R.circ /\ 2 * ShortestCoverLen(R, FootprintOfAll(R, locs)) >= R.L
-    IN  IF big THEN (IF WellFormed(R, r.loc) /\ IsSpan(R, r.loc) /\ FootprintOfAll(R, locs) \subseteq Bases(r.loc) THEN "ok" ELSE "covers_component")
-        ELSE ConnectClause(R, locs, r.loc)
-(* some component needs half the ring or more: its span is not its union any more, spans of different
-   components may then meet, and "disjoint regions" wins over "one region per component" *)
-AnyBigComponent(uni, s) ==
-    LET R == RU(uni) IN
-    R.circ /\ \E comp \in RegionComponents(uni, s) : 2 * ShortestCoverLen(R, FootprintOfAll(R, {AreaLoc(uni, a) : a \in comp})) >= R.L
+    IN  IF ~WellFormed(R, r.loc) THEN "result_well_formed"
+        ELSE IF ~IsSpan(R, r.loc) THEN "result_is_span"
+        ELSE IF Bases(r.loc) # FootprintOfAll(R, locs) THEN "exactly_the_bases_of_its_areas"
+        ELSE "ok"
+AnyBigComponent(uni, s) == FALSE
 ChainSharesRegion(uni, s) ==
     \A comp \in RegionComponents(uni, s) :
         \E r \in s.regions : /\ {a.c : a \in {a \in comp : a.t = "cand"}} \subseteq r.cands
